@@ -149,6 +149,19 @@ theorem sum_leading_idle (ls : List (List Seg)) (e : Edge) (es : List Edge) (hc 
   have hz : ¬ e.time = 0 := by omega
   simp only [sumEdges, emit, Int.sub_zero, hz, if_false, List.head?_cons]
 
+/-! ### pointwise sums -/
+
+theorem denSum_append (a b : List (List Seg)) (t : Int) : denSum (a ++ b) t = denSum a t + denSum b t := by
+  induction a with
+  | nil => simp [denSum]
+  | cons l a ih => simp only [List.cons_append, denSum, ih]; omega
+
+theorem allNonNeg_append {a b : List (List Seg)} (ha : AllNonNeg a) (hb : AllNonNeg b) : AllNonNeg (a ++ b) := by
+  intro l hl
+  rcases List.mem_append.mp hl with h | h
+  · exact ha l h
+  · exact hb l h
+
 /-! ### modes -/
 
 theorem nonNeg_take (segs : List Seg) (n : Nat) (h : NonNeg segs) : NonNeg (segs.take n) :=
@@ -198,6 +211,40 @@ theorem modeCut_nonNeg (t : Int) (m : Mode) (h : NonNeg m.segs) :
               rw [hca] at ha
               exact nonNeg_append [sa] _ ha (nonNeg_drop _ _ h)
     · simp only [hgt, not_false_eq_true, if_true, optNonNeg]; exact ⟨trivial, h⟩
+
+/-- When `modepb.Cut` returns two parts, either the mode has no segments (both parts are the mode itself)
+or it has a start time `s < t`, `before` starts at `s` and `after` at `t`. -/
+theorem modeCut_two_sided (t : Int) (m : Mode) (b a : Mode)
+    (hb : (modeCut t m).before = some b) (ha : (modeCut t m).after = some a) :
+    (m.segs = [] ∧ b = m ∧ a = m) ∨
+    (∃ s, m.start = some s ∧ s < t ∧ b.start = some s ∧ a.start = some t) := by
+  unfold modeCut at hb ha
+  by_cases h0 : m.segs.length = 0
+  · simp only [h0, if_true] at hb ha
+    cases hb; cases ha
+    exact Or.inl ⟨List.length_eq_zero_iff.mp h0, rfl, rfl⟩
+  · simp only [h0, if_false] at hb ha
+    by_cases hgt : t > tOrST t m
+    · have hgt' : ¬¬ (t > tOrST t m) := fun x => x hgt
+      simp only [hgt', if_false] at hb ha
+      by_cases hend : (activeAt (t - tOrST t m) m.segs).2 = m.segs.length
+      · simp only [hend, if_true] at ha; cases ha
+      · simp only [hend, if_false] at hb ha
+        cases hs : m.segs[(activeAt (t - tOrST t m) m.segs).2]? with
+        | none => rw [hs] at hb; cases hb
+        | some sg =>
+          rw [hs] at hb ha
+          simp only [Option.some.injEq] at hb ha
+          right
+          cases hst : m.start with
+          | none => rw [tOrST_eq, hst] at hgt; simp at hgt
+          | some s =>
+            rw [tOrST_eq, hst] at hgt
+            simp only [Option.getD_some] at hgt
+            refine ⟨s, rfl, hgt, ?_, ?_⟩
+            · rw [← hb]; split <;> simp [hst]
+            · rw [← ha]; split <;> rfl
+    · simp only [hgt, not_false_eq_true, if_true] at hb; cases hb
 
 theorem modeShift_nonNeg (d : Int) (m : Mode) (h : NonNeg m.segs) : NonNeg (modeShift d m).segs := by
   unfold modeShift
